@@ -936,7 +936,8 @@ def _mini_eval(fn: ast.FunctionDef, env: dict, allowed_calls: set[str], max_step
     steps = 0
     SAFE = {"set": set, "any": any, "all": all, "bool": bool, "len": len, "frozenset": frozenset, "list": list, "isinstance": isinstance,
             "tuple": tuple, "repr": repr, "str": str, "min": min, "max": max, "sorted": sorted, "enumerate": enumerate, "zip": zip,
-            "range": range, "dict": dict, "int": int}
+            "range": range, "dict": dict, "int": int, "float": float, "complex": complex, "bytes": bytes, "ord": ord, "chr": chr,
+            "abs": abs, "sum": sum, "type": type}
 
     def check(e):
         for n in ast.walk(e):
@@ -1122,6 +1123,8 @@ class SourceSelf:
     def __getattr__(self, name):
         if name in self._p:
             return self._p[name]
+        if name in self.__dict__.get("_consts", {}):
+            return self._consts[name]
         if name in self._m:
             fn = self._m[name]
             params = [a.arg for a in fn.args.args]
